@@ -932,6 +932,19 @@ func (up4 *UP4) removeInternalApplicationIDAndGetP4rtEntry(pdr pdr) (*p4.TableEn
 	return applicationsEntry, internalApp.id
 }
 
+// restoreInternalApplicationUser registers the PDR with its application again: the delete of the PDR's
+// entries failed, so the PDR stays with the session.
+func (up4 *UP4) restoreInternalApplicationUser(pdr pdr) {
+	up4.applicationMu.Lock()
+	defer up4.applicationMu.Unlock()
+
+	if internalApp, exists := up4.applicationIDs[toUP4ApplicationFilter(pdr)]; exists {
+		internalApp.usedBy.Add(internalAppReference{
+			pdr.fseID, pdr.pdrID,
+		})
+	}
+}
+
 // releaseInternalApplicationIfUnused frees the application ID of the PDR's filter once the applications
 // entry has been deleted from the switch and no PDR has started using the application in the meantime.
 func (up4 *UP4) releaseInternalApplicationIfUnused(pdr pdr) {
@@ -1548,6 +1561,11 @@ func (up4 *UP4) modifyUP4ForwardingConfiguration(pdrs []pdr, allFARs []far, qers
 		err = up4.p4client.ApplyTableEntries(methodType, entriesToApply...)
 		if err != nil {
 			releaseNewApplication := func() {
+				if methodType == p4.Update_DELETE && !pdr.IsAppFilterEmpty() {
+					up4.restoreInternalApplicationUser(pdr)
+					return
+				}
+
 				if !newApplicationUser {
 					return
 				}
